@@ -12,6 +12,7 @@ import (
 	"os"
 	"os/exec"
 	"path/filepath"
+	"sort"
 	"strings"
 	"syscall"
 	"time"
@@ -209,6 +210,16 @@ func rtExec(c *Ctx, op string) {
 		}
 		os.RemoveAll(empty)
 	}
+	outsideZip := false
+	for _, e := range fsx {
+		if fmtName == "zip" && e.Kind != 'f' && e.Kind != 'd' && e.Kind != 'L' {
+			outsideZip = true // the zip transmat stores files, directories and symlinks: the rest is outside its domain
+		}
+	}
+	if err != nil && pan == "" && outsideZip && catOf(err) == "rio-pack-invalid" {
+		c.H("zip-special-refused")
+		return
+	}
 	if err != nil && pan == "" {
 		// the fileset was materialised on disk as generated: a pack that refuses it cannot round-trip it
 		c.PropFail("pack-refused", "pack of a well-formed fileset failed: "+err.Error(), op)
@@ -399,9 +410,29 @@ func packRootExec(c *Ctx, op string) {
 	id, err, pan := safeCall(func() (api.WareID, error) {
 		return fn.pack(context.Background(), api.PackType(fmtName), src, pf, "", rio.Monitor{})
 	})
-	c.EmitR(op, fmt.Sprintf("pack %s %s %s", fmtName, filterInts(pf), entriesTokForModel(fsx)), resTok(id, err, pan))
+	// the model meets the entries in the order the walk does (which error comes first depends on it): pre-order, names sorted
+	walk := append(Fileset(nil), fsx...)
+	sort.SliceStable(walk, func(i, j int) bool {
+		a, b := strings.Split(walk[i].Name, "/"), strings.Split(walk[j].Name, "/")
+		if walk[i].Name == "" || walk[j].Name == "" {
+			return walk[i].Name == "" && walk[j].Name != ""
+		}
+		for k := 0; k < len(a) && k < len(b); k++ {
+			if a[k] != b[k] {
+				return a[k] < b[k]
+			}
+		}
+		return len(a) < len(b)
+	})
+	c.EmitR(op, fmt.Sprintf("pack %s %s %s", fmtName, filterInts(pf), entriesTokForModel(walk)), resTok(id, err, pan))
 	if pan != "" {
 		c.PropFail("panic-pack", "pack of a fileset with a special root panicked: "+pan, op)
+	}
+	outsideZip := false
+	for _, e := range fsx {
+		if fmtName == "zip" && e.Kind != 'f' && e.Kind != 'd' && e.Kind != 'L' {
+			outsideZip = true // (unless a dev rule ejects it first: then the model says so too)
+		}
 	}
 	// the documented rule, entry by entry: a reject rule that names an entry refuses the pack, whatever else happens to it
 	rejected := false
@@ -410,7 +441,9 @@ func packRootExec(c *Ctx, op string) {
 			rejected = true
 		}
 	}
-	if r := resTok(id, err, pan); rejected && r != "err rio-filter-rejection" {
+	if r := resTok(id, err, pan); rejected && outsideZip && r == "err rio-pack-invalid" {
+		// refused either way: the walk met a node the zip format cannot hold before it met the entry the reject rule names
+	} else if rejected && r != "err rio-filter-rejection" {
 		c.PropFail("filter-reject", fmt.Sprintf("pack (%s, %s) answered %s although a reject rule names an entry of the fileset", fmtName, pfStr, r), op)
 	} else if !rejected && r == "err rio-filter-rejection" && len(fsx) > 1 {
 		c.PropFail("filter-reject", fmt.Sprintf("pack (%s, %s) answered filter-rejection although no reject rule names an entry", fmtName, pfStr), op)
@@ -727,6 +760,14 @@ func rtEngineRest(c *Ctx) {
 	rtExec(c, "rt tar ca direct "+filesetTok(sg))
 	zs := Fileset{{Name: "", Kind: 'd', Perms: 0755, Uid: 1000, Gid: 1000, Sec: 1e9}, {Name: "f", Kind: 'f', Perms: 0644, Uid: 1000, Gid: 1000, Sec: 1e9, Nsec: 5000, Content: []byte("x")}}
 	rtExec(c, "rt zip ca direct "+filesetTok(zs))
+	// what the zip transmat has no representation for: a fifo, a character device, a block device — the pack answers an id
+	// only for what its own unpack gives back
+	for _, sp := range []Entry{{Name: "ff", Kind: 'p', Perms: 0644, Uid: 3, Gid: 4, Sec: 1e9}, {Name: "null", Kind: 'c', Perms: 0666, Uid: 3, Gid: 4, Sec: 1e9, Maj: 1, Min: 3},
+		{Name: "sda1", Kind: 'D', Perms: 0660, Uid: 3, Gid: 4, Sec: 1e9, Maj: 8, Min: 1}} {
+		zsp := Fileset{{Name: "", Kind: 'd', Perms: 0755, Uid: 3, Gid: 4, Sec: 1e9}, {Name: "plain", Kind: 'f', Perms: 0644, Uid: 3, Gid: 4, Sec: 1e9, Content: []byte("p")}, sp}
+		rtExec(c, "rt zip ca direct "+filesetTok(zsp))
+		rtExec(c, "rt tar ca direct "+filesetTok(zsp))
+	}
 	// file bodies shaped like sparse files: runs of zero bytes at the end, in the middle, block sized and not
 	{
 		rnd := func(n int) []byte {
